@@ -43,6 +43,7 @@ use crate::{
         BitDecomposed, FieldSimd, TransposeFrom, Vectorizable,
         replicated::semi_honest::AdditiveShare as Replicated,
     },
+    sharding::ShardIndex,
 };
 
 /// The Hybrid Protocol
@@ -109,7 +110,9 @@ where
 {
     #[cfg(feature = "ipa-verif")]
     crate::verif_obs::emit("hybrid:input", ctx.role() as u64, u64::from(u32::from(ctx.shard_id())), input_rows.len() as u64);
-    if input_rows.is_empty() {
+    // A shard without input rows must keep participating: its sibling shards exchange rows with
+    // it in the shuffles, the reshard and the finalization. Only an unsharded helper can stop here.
+    if input_rows.is_empty() && ctx.shard_count() == ShardIndex::from(1u32) {
         return Ok(vec![Replicated::ZERO; B]);
     }
 
